@@ -261,6 +261,12 @@ type Tokenizer struct {
 	// empties the cache whenever the input changes.
 	posCacheIndex  int
 	posCacheColumn int
+
+	// What hasCodeBeforeOnLine last learned: codeScanFound tells whether the part of its line before byte
+	// codeScanIndex holds anything but blanks. Comments are met in increasing order, so a later comment on
+	// the same line only looks at the bytes after codeScanIndex.
+	codeScanIndex int
+	codeScanFound bool
 }
 
 // New creates a new Tokenizer with default configuration and keyword support.
@@ -1732,19 +1738,32 @@ func isIdentifierChar(r rune) bool {
 func (t *Tokenizer) hasCodeBeforeOnLine(idx int) bool {
 	// Find the start of the line containing idx
 	lineStart := 0
-	for i := len(t.lineStarts) - 1; i >= 0; i-- {
-		if t.lineStarts[i] <= idx {
-			lineStart = t.lineStarts[i]
+	if n := t.linesUpTo(idx); n > 0 {
+		lineStart = t.lineStarts[n-1]
+	}
+	// Check for non-whitespace between lineStart and idx. If the previous call
+	// stopped between lineStart and idx it was about this line: keep what it
+	// found and look only at the bytes after it, so that many comments on one
+	// line do not each rescan the line from its start.
+	from := lineStart
+	if t.codeScanIndex >= lineStart && t.codeScanIndex <= idx {
+		if t.codeScanFound {
+			return true
+		}
+		from = t.codeScanIndex
+	}
+	found := false
+	i := from
+	for ; i < idx && i < len(t.input); i++ {
+		if t.input[i] != ' ' && t.input[i] != '\t' && t.input[i] != '\r' {
+			found = true
+			i++
 			break
 		}
 	}
-	// Check for non-whitespace between lineStart and idx
-	for i := lineStart; i < idx && i < len(t.input); i++ {
-		if t.input[i] != ' ' && t.input[i] != '\t' && t.input[i] != '\r' {
-			return true
-		}
-	}
-	return false
+	t.codeScanIndex = i
+	t.codeScanFound = found
+	return found
 }
 
 // linesUpTo returns the number of line starts at or before idx; lineStarts is
